@@ -456,6 +456,14 @@ def r8(fx):
              a, got=ast.unparse(a.value), want='make_final_message(version, error, buff)')
 
 
+@rule('C01', 'R10', 100, 'error boosting measures the content with the version search\'s measure (same eci / is_sa), so a boosted level still holds every bit')
+def r10(fx):
+    from . import p05
+    yield from p05.r2(fx)
+    for o in p05.r4(fx):
+        yield o
+
+
 @rule('C01', 'R9', 10, 'public factories forward content / encoding / eci unchanged')
 def r9(fx):
     yield from wrappers.forwarding(fx, {'content', 'encoding', 'eci'})
